@@ -897,12 +897,33 @@ def run_rt(spec, acc):
         else:
             time.sleep(0.02)
             # quiet sends: nothing scheduled, no traffic
-            for _ in range(8):
+            for q_ in range(8):
                 sid = next(sids)
                 kind, lst = gen(rng2, sid, p_bundle=0.9)
                 sends[sid] = (kind, G.clone(lst))
                 tls.cap = cap = []
                 exc = None
+                if q_ % 2:
+                    # the send is made by a routine that this thread steps by hand
+                    # (`next()`, no clock): its time is the present of that call
+                    from sc3.base.stream import Routine as _Routine
+
+                    def mk_hand(kind, lst):     # (no parameters: a routine function
+                        def hand():             # with parameters is given the input value)
+                            do_send(kind, lst, srv_m)
+                            yield 0
+                        return hand
+                    hr = _Routine(mk_hand(kind, lst))
+                    time.sleep(0.003)
+                    p0 = main.elapsed_time()
+                    try:
+                        hr.next()
+                    except Exception as e:
+                        exc = e
+                    p1 = main.elapsed_time()
+                    tls.cap = None
+                    mrecords.append((sid, 'quiet-from-a-hand-stepped-routine', p0, p1, cap, exc))
+                    continue
                 p0 = main.elapsed_time()
                 try:
                     do_send(kind, lst, srv_m)
